@@ -40,6 +40,25 @@ class NeedsNew(Exception):
         Exception.__init__(self, a, b)
 class BaseOnly(BaseException):
     pass
+class DirNoArgs(Exception):
+    """dir() hides `args`: dump sends no arguments"""
+    def __dir__(self):
+        return [n for n in object.__dir__(self) if n != "args"]
+class DirDupArgs(Exception):
+    """dir() lists `args` twice: dump sends the arguments twice"""
+    def __dir__(self):
+        return list(object.__dir__(self)) + ["args"]
+class Slotted(Exception):
+    __slots__ = ("code",)
+    def __init__(self, *a):
+        c09canary.INIT.append(type(self).__name__)
+        Exception.__init__(self, *a)
+        self.code = 5
+class BadProp(ValueError):
+    """a property that raises something other than AttributeError: dump itself raises"""
+    @property
+    def broken(self):
+        raise KeyError("broken")
 class NotExc(object):
     def __init__(self, *a):
         c09canary.INIT.append("NotExc")
@@ -174,6 +193,8 @@ def extract_record(t, val, tb):
     for n in dir(val):
         if n == "args":
             entries.append("( %s I1 N N )" % S(n))
+            if args or reprs:
+                continue          # a dir() that lists `args` again: the record's argument list is given once
             for a in val.args:
                 txt = valtext.to_text(a)
                 args.append(txt)
@@ -439,7 +460,44 @@ def obj_text(ex, m, c, slots, after_raise=True):
             attrs.append("( %s %s ) " % (canon_cached(n), canon_cached(getattr(ex, n))))
         except Exception as e2:  # noqa
             attrs.append("( %s !%s ) " % (S(n), type(e2).__name__))
-    return "%s %s ( %s)" % (ct, valtext.canon(tuple(ex.args)), "".join(attrs))
+    return "%s %s ( %s)%s" % (ct, valtext.canon(tuple(ex.args)), "".join(attrs), str_suffix(ex))
+
+
+def is_derived(ex):
+    from rpyc.core import vinegar
+    return type(ex) in vinegar._exception_classes_cache.values()
+
+
+def base_token(ex):
+    """the op-line token for what `cls.__str__(exc)` gives on a received object (cls = the class `Derived` subclasses);
+    N when ex is no instance of such a subclass"""
+    if not isinstance(ex, BaseException) or not is_derived(ex):
+        return "N"
+    C = type(ex).__mro__[1]
+    try:
+        t = C.__str__(ex)
+        if type(t) is not str:
+            raise TypeError("__str__ returned non-string")
+        return canon_cached(t)
+    except Exception:  # noqa
+        return "( %s )" % S("ValueError")
+
+
+def str_suffix(ex):
+    """` str <text of str(exc)>` for an instance of a Derived subclass (` str !<Error>` when str() raises), ` str N` otherwise;
+    ` !derived` is appended when the subclass does not carry the class's name / module or repr() differs from str()"""
+    if not is_derived(ex):
+        return " str N"
+    T, C = type(ex), type(ex).__mro__[1]
+    try:
+        out = " str " + canon_cached(str(ex))
+        if repr(ex) != str(ex):
+            out += " !derived"
+    except Exception as e2:  # noqa
+        out = " str !" + err_name(e2)
+    if not (issubclass(T, C) and T.__name__ == C.__name__ and T.__module__ == C.__module__):
+        out += " !derived"
+    return out
 
 
 def _skip_value(toks, i):
@@ -466,6 +524,11 @@ _DROP_TOKS = frozenset(valtext.to_text(n) for n in RAISE_TOUCHED)
 def sort_model_obj(text, drop=False):
     """re-canonicalise `<cls..> <args> <attrs>` printed by the driver: attrs sorted by name (frozensets, if any, sorted
     through the slow path); drop: leave out the slots a `raise` statement rewrites"""
+    text, _sep, strpart = text.rpartition(" str ")
+    return _sort_model_obj(text, drop) + " str " + strpart
+
+
+def _sort_model_obj(text, drop):
     toks = text.split(" ")
     if "{" in toks:
         return _sort_model_obj_slow(text, RAISE_TOUCHED if drop else frozenset())
